@@ -49,9 +49,11 @@ EXHAUSTIVE = {
                 "each of the 8 recognisers",
 }
 TRUSTED = [
-    "not modelled (R): the PQ-tree code of consecutive_ones.py (reorder_sets, P/Q.set_contiguous, simplify, flatten): "
-    "compared with the verified reference c1p_decide while the number of columns is <= 8 and through the verified "
-    "checker c1p_check at every size",
+    "the PQ-tree code of consecutive_ones.py is MIRRORED (Model/PQTree.v) and the mirror is proved total (only "
+    "ValueError) and SOUND (pq_reorder_sound: every answer is accepted by sets_check; chained to pq_solve_sound, "
+    "pq_isC1P_sound and the six recognisers); NOT proved: completeness (ValueError only if no arrangement exists) - "
+    "this half is compared with the verified references sets_decide / c1p_decide while the permuted dimension is "
+    "<= 8 and, beyond, through planted certificates",
     "floats of is_dichotomous_euclidean are converted exactly with fractions.Fraction (positions are halves of small "
     "integers, exact in IEEE double)",
     "numpy array construction / transpose / vstack / argwhere",
@@ -467,7 +469,7 @@ def generate(tier, seed):
             out.append(_mcase(rows, nc, gen="planted", **({"planted": hidden} if hidden is not None else {})))
     nblk = 1500 if quick else 15000
     for i in range(nblk):
-        nc = rng.randint(4, 8)
+        nc = rng.randint(4, 7 if quick else 8)
         out.append(_mcase(_block_matrix(rng, nc), nc, gen="blocks"))
     nbig = 60 if quick else 600
     for i in range(nbig):
@@ -840,9 +842,9 @@ def _plan(c, r):
             plan.append(("ref", "c05.sets_decide", [fam]))
         if "planted" in tags:
             plan.append(("planted", "c05.sets_check", [fam, tags["planted"]]))
-        if okres and r[1][0] == 1:
-            plan.append(("witness", "c05.sets_check", [fam, r[1][1]]))
         if okres:
+            # exact agreement with the mirror; by pq_reorder_sets_check (proved) an answer equal to the mirror's is
+            # accepted by sets_check, so the separate witness check is only needed when the mirror is not asked
             plan.append(("mirror", "c05.pq_reorder", [r[1][2], fam]))
         return plan
     if op == "c05.matrix":
@@ -942,7 +944,7 @@ def judge(c, r, mres):
             return {"kind": "mismatch", "theorem": "Model/PQTree.v pq_reorder (mirror)",
                     "reason": "reorder_sets raised ValueError, the mirrored PQ-tree algorithm answers %r (element order %r)"
                               % (mir, val[2])}
-    if v == 1 and ans.get("witness") != 1:
+    if v == 1 and "mirror" not in ans and ans.get("witness") != 1:
         return "%s returned a witness that the verified checker rejects: %r" % (what, val[1])
     if c["op"] == "c05.matrix":
         for name, iv in (("list", val[2]), ("ndarray", val[3])):
